@@ -1903,10 +1903,12 @@ class Population:
         characteristic_tolerence_failed = False
 
         # Print warning for characteristics that are not well matched by the compartment size solution
+        # Negative sizes within the tolerance are stored as 0 (below), so the comparison uses the values that will actually be stored
+        stored = np.matmul(A, np.maximum(x, 0.0))
         for i in range(0, len(b_objs)):
-            if abs(proposed[i] - b[i]) > model_settings["tolerance"]:
+            if abs(stored[i] - b[i]) > model_settings["tolerance"]:
                 characteristic_tolerence_failed = True
-                error_msg += "Characteristic '{0}' '{1}' - Requested {2}, Calculated {3}\n".format(self.name, b_objs[i].name, b[i], proposed[i])
+                error_msg += "Characteristic '{0}' '{1}' - Requested {2}, Calculated {3}\n".format(self.name, b_objs[i].name, b[i], stored[i])
 
         # Print expanded diagnostic for negative compartments showing parent characteristics
         def report_characteristic(charac, n_indent=0):
